@@ -48,6 +48,17 @@ def constructed():
     C.append(('intrinsic-on-several-opcodes-ecl', 'ecl', 'th07', 'void sub0() {\n $REG[10000] = 3;\n %REG[10004] = 1.5;\n lbl:\n $REG[10001] = $REG[10000];\n goto lbl;\n}\nscript timeline0 {}\n', multi_e))
     C.append(('names-on-several-opcodes', 'anm', 'th12', ANM_HEAD + 'script s {\n foo(1);\n bar(2);\n $A = 1;\n $B = 2;\n}\n',
               '!anmmap\n!ins_names\n900 foo\n901 foo\n902 bar\n900 bar\n!ins_signatures\n900 S\n901 S\n902 S\n!gvar_names\n10000 A\n10001 A\n10002 B\n10000 B\n'))
+    # mapfile validation: several signatures that each name an unknown enum (one error per signature: their order), and an unknown
+    # enum name with several equally distant candidates (which one is suggested)
+    C.append(('mapfile-unknown-enums', 'anm', 'th12', ANM_HEAD + 'script s {\n}\n',
+              '!anmmap\n!ins_signatures\n' + ''.join('%d S(enum="Nope%s")\n' % (900 + i, ch) for i, ch in enumerate('ABCDEFGH'))))
+    C.append(('mapfile-unknown-enums-ecl', 'ecl', 'th07', 'void sub0() {}\nscript timeline0 {}\n',
+              '!eclmap\n!ins_signatures\n' + ''.join('%d S(enum="Nope%s")\n' % (900 + i, ch) for i, ch in enumerate('ABCDEF')) +
+              '!timeline_ins_signatures\n' + ''.join('%d s(arg0;enum="NopeT%s")\n' % (900 + i, ch) for i, ch in enumerate('ABC'))))
+    C.append(('enum-suggestion-tie', 'anm', 'th12', ANM_HEAD + 'script s {\n}\n',
+              '!anmmap\n' + ''.join('!enum(name="Abcdef%d")\n1 v%d\n' % (i, i) for i in range(1, 7)) + '!ins_signatures\n900 S(enum="Abcdef")\n'))
+    C.append(('enum-suggestion-tie-in-source', 'anm', 'th12', ANM_HEAD + 'script s {\n ins_3(Abcdef.v1);\n}\n',
+              '!anmmap\n' + ''.join('!enum(name="Abcdef%d")\n1 v%d\n' % (i, i) for i in range(1, 7))))
     return C
 
 def constructed_binaries():
